@@ -178,25 +178,37 @@ func c11b(c *Ctx, a *absVariant) {
 	}
 	if le := v.Func("errList", "Error"); le != nil {
 		recv := le.Recv.List[0].Names[0].Name
-		okJoin, okOne := false, false
-		ast.Inspect(le.Body, func(n ast.Node) bool {
-			switch x := n.(type) {
-			case *ast.RangeStmt:
-				if nospace(x.X) == recv && x.Value != nil {
-					for _, ce := range callsIn(x.Body) {
-						if callSel(ce) == "WriteString" && nospace(ce.Args[0]) == nospace(x.Value)+".Error()" {
-							okJoin = true
-						}
+		// on the normalised paths: a path that walks the list writes every entry's message, in list order; a path that
+		// does not walk it is the one-entry (or empty) list answered directly
+		okJoin, okOne := false, true
+		var why []string
+		for _, p := range c.vnorm(v).normPaths(le) {
+			iLoop := p.evIndex("loop", 0, func(s string) bool { return s == "range "+recv })
+			if iLoop >= 0 {
+				wrote := false
+				for _, e := range p[iLoop:] {
+					if (e.Kind == "call" || e.Kind == "ccall" || e.Kind == "set") && strings.Contains(e.Text, recv+"[#1].Error()") && (strings.Contains(e.Text, ".WriteString(") || strings.Contains(e.Text, "Fprint") || strings.Contains(e.Text, "=append(") || strings.Contains(e.Text, "+=")) {
+						wrote = true
 					}
 				}
-			case *ast.ReturnStmt:
-				if len(x.Results) == 1 && nospace(x.Results[0]) == recv+"[0].Error()" {
-					okOne = true
+				if wrote {
+					okJoin = true
+				} else {
+					okOne = false
+					why = append(why, "a path walks the list without writing the entry's message ["+abbreviate(strings.Join(p.facts(), " "))+"]")
 				}
+				continue
 			}
-			return true
-		})
-		r.Check(okJoin && okOne, "C11-b", "T.errList.Error:joins-in-order", vn, v.Where(le.Pos()), "every entry's message, in list order", fmt.Sprintf("joins-all=%t single-entry=%t", okJoin, okOne))
+			ret := lastReturn(p)
+			switch {
+			case ret == recv+"[0].Error()" && p.holds("len("+recv+")==1"):
+			case ret == `""` && p.holds("len("+recv+")==0"):
+			default:
+				okOne = false
+				why = append(why, "a path answers "+abbreviate(ret)+" without walking the list ["+abbreviate(strings.Join(p.facts(), " "))+"]")
+			}
+		}
+		r.Check(okJoin && okOne, "C11-b", "T.errList.Error:joins-in-order", vn, v.Where(le.Pos()), "every entry's message, in list order", fmt.Sprintf("joins-all=%t %s", okJoin, strings.Join(uniq(why), "; ")))
 	}
 	errAlwaysRecorded(c, v, "C11-b")
 	// addErr forwards at the current position
@@ -312,34 +324,71 @@ func c11cde(c *Ctx, v *variants.Variant) {
 	// ---- d
 	if df := v.Func("errList", "dedupe"); df != nil {
 		recv := df.Recv.List[0].Names[0].Name
-		okRange, okKey, okAppend, okStore := false, false, false, false
-		ast.Inspect(df.Body, func(n ast.Node) bool {
-			switch x := n.(type) {
-			case *ast.RangeStmt:
-				if nospace(x.X) == "*"+recv && x.Value != nil {
-					okRange = true
-					ev := nospace(x.Value)
-					ast.Inspect(x.Body, func(m ast.Node) bool {
-						switch y := m.(type) {
-						case *ast.IfStmt:
-							if y.Init != nil && strings.Contains(nospace(y.Init.(*ast.AssignStmt).Rhs[0]), ev+".Error()") && strings.HasPrefix(nospace(y.Cond), "!") {
-								okKey = true
-							}
-						case *ast.AssignStmt:
-							if strings.HasPrefix(nospace(y.Rhs[0]), "append(") && strings.HasSuffix(nospace(y.Rhs[0]), ","+ev+")") {
-								okAppend = true
-							}
-						}
-						return true
-					})
-				}
-			case *ast.AssignStmt:
-				if nospace(x.Lhs[0]) == "*"+recv {
-					okStore = true
+		// on the normalised paths: the list is walked in slice order; an entry whose message was seen before is
+		// dropped, any other one is marked as seen and appended to the list that replaces the original afterwards;
+		// nothing but the message decides
+		okRange, okKey, okAppend, okStore := false, true, false, false
+		elem := "*" + recv + "[#1]"
+		key := elem + ".Error()"
+		memRe := regexp.MustCompile(`^(!?)(?:ok\()?(\$\d+)\[` + regexp.QuoteMeta(key) + `\]\)?$`)
+		for _, p := range c.vnorm(v).normPaths(df) {
+			lo := p.evIndex("loop", 0, func(s string) bool { return s == "range *"+recv })
+			if lo < 0 {
+				continue
+			}
+			okRange = true
+			hi := len(p)
+			for k := lo + 1; k < len(p); k++ {
+				if p[k].Kind == "endloop" {
+					hi = k
+					break
 				}
 			}
-			return true
-		})
+			seg := p[lo+1 : hi]
+			seen, unseen := false, false
+			for _, f := range seg.facts() {
+				m := memRe.FindStringSubmatch(f)
+				switch {
+				case m == nil:
+					okKey = false // something else than the message decides
+				case m[1] == "!":
+					unseen = true
+				default:
+					seen = true
+				}
+			}
+			list, marked := "", false
+			for _, e := range seg {
+				if e.Kind != "set" {
+					continue
+				}
+				if k := strings.Index(e.Text, "=append("); k > 0 && strings.HasSuffix(e.Text, ","+elem+")") && strings.HasPrefix(e.Text[k+1:], "append("+e.Text[:k]+",") {
+					list = e.Text[:k]
+				}
+				if strings.Contains(e.Text, "["+key+"]=") {
+					marked = true
+				}
+			}
+			switch {
+			case seen && !unseen:
+				if list != "" {
+					okKey = false // a repeated message is kept
+				}
+			case unseen && !seen:
+				if list == "" || !marked {
+					okKey = false
+				} else {
+					okAppend = true
+					for _, e := range p[hi:] {
+						if e.Kind == "set" && e.Text == "*"+recv+"="+list {
+							okStore = true
+						}
+					}
+				}
+			default:
+				okKey = false
+			}
+		}
 		r.Check(okRange && okKey && okAppend && okStore, "C11-d", "T.errList.dedupe:first-occurrence-in-order", vn, v.Where(df.Pos()), "slice order, keyed by Error(), unseen appended", fmt.Sprintf("range=%t key=%t append=%t store=%t", okRange, okKey, okAppend, okStore))
 	} else {
 		r.Fatal("variant %s: errList.dedupe missing", vn)
